@@ -50,7 +50,7 @@ type Conf struct {
 }
 
 type Op struct {
-	Kind  string `json:"kind"`            // discover | request | restart
+	Kind  string `json:"kind"`            // discover | request | restart | age
 	MAC   string `json:"mac,omitempty"`   // hex chaddr (any length 0..16)
 	Host  string `json:"host,omitempty"`  // hex of option 12; "" = absent
 	Lease string `json:"lease,omitempty"` // restart: lease time argument
@@ -78,13 +78,14 @@ type Sys struct {
 	end    uint32
 	dead   bool
 	broken bool
+	aged   map[string]bool // ghost: clients whose lease ran out since they were last answered
 	crash  bool // evaluate the crash/restart oracle after every live op
 }
 
 func ip2u(s string) uint32 { return binary.BigEndian.Uint32(net.ParseIP(s).To4()) }
 
 func NewSys(r *ev.Run, id string, c Conf, crash bool) *Sys {
-	s := &Sys{r: r, id: id, conf: c, first: map[string]string{}, prom: map[string]time.Time{}, lease: c.Lease, start: ip2u(c.Start), end: ip2u(c.End), crash: crash}
+	s := &Sys{r: r, id: id, conf: c, first: map[string]string{}, prom: map[string]time.Time{}, aged: map[string]bool{}, lease: c.Lease, start: ip2u(c.Start), end: ip2u(c.End), crash: crash}
 	s.db = filepath.Join(srv.Scratch(), fmt.Sprintf("lease-%d.sqlite", seq.Add(1)))
 	if err := s.setup(s.db, c.Lease); err != nil {
 		panic(err)
@@ -98,6 +99,7 @@ func NewSys(r *ev.Run, id string, c Conf, crash bool) *Sys {
 }
 
 func (s *Sys) setup(db, lease string) error {
+	defer reg.OpBegin(fmt.Sprintf("range %s-%s: Setup4 on %s after %d ops", s.conf.Start, s.conf.End, filepath.Base(db), len(s.hist)))()
 	h, err := rangeplugin.Plugin.Setup4(db, s.conf.Start, s.conf.End, lease)
 	if err != nil {
 		return err
@@ -134,6 +136,10 @@ func (s *Sys) Ops() []Op {
 		other = "60s"
 	}
 	ops = append(ops, Op{Kind: "restart", Lease: other})
+	if len(s.aged) < len(s.first) {
+		// wall-clock time passes: every lease handed out so far runs out
+		ops = append(ops, Op{Kind: "age"})
+	}
 	return ops
 }
 
@@ -165,7 +171,12 @@ func (s *Sys) Key() string {
 			}
 		}
 	}
-	return fmt.Sprintf("recs=%v nbits=%d lease=%v ghost=%s", recs, len(d.Bits), d.LeaseTime, s.ghostKey())
+	var ag []string
+	for m := range s.aged {
+		ag = append(ag, m)
+	}
+	sort.Strings(ag)
+	return fmt.Sprintf("recs=%v nbits=%d lease=%v ghost=%s expired=%v", recs, len(d.Bits), d.LeaseTime, s.ghostKey(), ag)
 }
 
 func (s *Sys) violate(prop, sig, what string) {
@@ -210,6 +221,18 @@ func (s *Sys) Apply(op Op, live bool) (obs string) {
 			s.r.Sample(class, Case{s.conf, append([]Op{}, s.hist...)})
 		}
 	}()
+	if op.Kind == "age" {
+		// one hour and one second more than the longest lease time of the alphabet
+		const d = 2*time.Hour + time.Second
+		if err := s.inst.VerifAge(d); err != nil {
+			panic(err)
+		}
+		for m := range s.first {
+			s.aged[m] = true
+			s.prom[m] = s.prom[m].Add(-d)
+		}
+		return "aged"
+	}
 	if op.Kind == "restart" {
 		before := s.inst.VerifDump()
 		s.inst.VerifClose()
@@ -258,6 +281,7 @@ func (s *Sys) Apply(op Op, live bool) (obs string) {
 				p = fmt.Sprint(e)
 			}
 		}()
+		defer reg.OpBegin(fmt.Sprintf("range %s-%s: %s from %s after %d ops", s.conf.Start, s.conf.End, op.Kind, op.MAC, len(s.hist)-1))()
 		out, stop = s.h(req, resp)
 		return
 	}()
@@ -324,6 +348,7 @@ func (s *Sys) Apply(op Op, live bool) (obs string) {
 		if !was {
 			s.first[op.MAC] = ys
 		}
+		delete(s.aged, op.MAC)
 		ltNow, _ := time.ParseDuration(s.lease)
 		s.prom[op.MAC] = tBefore.Add(ltNow)
 	}
@@ -450,7 +475,7 @@ func confs(thorough bool) []Conf {
 	}
 	cs := []Conf{
 		{Start: "10.0.0.10", End: "10.0.0.11", Lease: "60s", MACs: m(3)},
-		{Start: "10.0.0.10", End: "10.0.0.12", Lease: "1h", MACs: m(4)},
+		{Start: "10.0.0.254", End: "10.0.1.0", Lease: "1h", MACs: m(4)}, // crosses .255/.0
 	}
 	if thorough {
 		cs = append(cs,
